@@ -8,7 +8,8 @@ Model: Model/Writer.lean (one LTS for writer.go).  All theorems quantify over ev
 state / accepted event, i.e. every finite event sequence the LTS accepts (any number of callers, partitions,
 message sizes, faults, timer firings, Close).
 -/
-import KafkaVerif.Lemmas.WriterSched
+import KafkaVerif.Lemmas.WriterProgress
+import KafkaVerif.Gen.WriterConsts
 
 namespace KV.C08
 open KV KV.Writer
@@ -29,7 +30,7 @@ theorem batch_limits (cfg : Cfg) (s s' : State) (hr : Reachable cfg s) (pw : Nat
   repeat' split at hs
   all_goals (first | (cases hs; done) | skip)
   rename_i _ P hP _ b k hsend _ B hBq hg
-  obtain ⟨-, h1, h2, h3⟩ := hg
+  obtain ⟨-, h1, h2, h3, -⟩ := hg
   have ⟨hl, hb, hsum⟩ := hI _ _ hBq
   refine ⟨b, B, P, k, hP, hsend, hBq, h3, h1, h2, ?_, ?_, ?_⟩
   · rw [← h3, List.length_map]; exact hl
@@ -173,6 +174,42 @@ theorem flushed_by_timer (cfg : Cfg) (s : State) (hr : Reachable cfg s) (pw b : 
     rw [if_pos ⟨rfl, rfl, rfl⟩]
   exact ⟨s1, s2, s3, h1, h2, h3, by simp [s3, P2]⟩
 
+/-! ### progress without fairness assumptions: enabledness + measure
+
+"Every accepted message is scheduled for sending without waiting for further writes … and is produced as soon as
+the earlier batches of that partition have completed."  The model has no clock and no scheduler, so the liveness
+side is stated the way C09 states termination of Close: the partition writer's own events (its batch timer, its
+hand-over to the queue, its sender goroutine, the broker's answers — `internalFor`) are (1) always enabled while
+anything is left in its pipeline, without any caller event, and (2) each of them strictly decreases the natural
+number `pwCost`; hence (3) at most `pwCost` of them empty the pipeline, completing every batch that was in it. -/
+
+/-- **progress_enabled** — while a partition writer has anything attached, pending, queued or in the sender's hands,
+one of its internal events is enabled (MaxAttempts ≥ 1, as `maxAttempts()` guarantees). -/
+theorem progress_enabled (cfg : Cfg) (hmax : 1 ≤ cfg.maxAttempts) (s : State) (hr : Reachable cfg s) (pw : Nat) (P : PW)
+    (hP : s.pws pw = some P) (hne : P.pipe ≠ []) :
+    ∃ e, internalFor s pw e = true ∧ (step cfg s e).isSome = true :=
+  internal_enabled cfg hmax s hr pw P hP hne
+
+/-- **progress_measure** — every internal event of the partition writer strictly decreases `pwCost`
+(3·(MaxAttempts − k) + … for the batch being sent, 3·MaxAttempts + 3 per queued batch, +1 / +3 or 4 for a pending /
+attached one). -/
+theorem progress_measure (cfg : Cfg) (hmax : 1 ≤ cfg.maxAttempts) (s s' : State) (hr : Reachable cfg s) (pw : Nat) (P : PW)
+    (hP : s.pws pw = some P) (e : Event) (hint : internalFor s pw e = true) (hs : step cfg s e = some s') :
+    ∃ P', s'.pws pw = some P' ∧ pwCost cfg s'.batches P' < pwCost cfg s.batches P :=
+  internal_decreases cfg s s' (invProg cfg hmax s hr) pw P hP e hint hs
+
+/-- **flushed_without_further_input** — from every reachable state, for every partition writer, there is a
+continuation consisting only of that writer's internal events, of length ≤ `pwCost`, after which its pipeline is
+empty and every batch that was in it — in particular the attached one holding the most recently accepted messages —
+is completed: acknowledged, or failed permanently / after MaxAttempts attempts. -/
+theorem flushed_without_further_input (cfg : Cfg) (hmax : 1 ≤ cfg.maxAttempts) (s : State) (hr : Reachable cfg s)
+    (pw : Nat) (P : PW) (hP : s.pws pw = some P) :
+    ∃ es s' P', internalRun cfg pw s es = some s' ∧ run cfg s es = some s' ∧ s'.pws pw = some P' ∧ P'.pipe = [] ∧
+      es.length ≤ pwCost cfg s.batches P ∧
+      ∀ b ∈ P.pipe, ∃ B' code, s'.batches b = some B' ∧ B'.done = some code := by
+  obtain ⟨es, s', P', h1, h2, h3, h4, h5⟩ := flush_completes cfg hmax _ s hr pw P hP (Nat.le_refl _)
+  exact ⟨es, s', P', h1, internalRun_is_run cfg pw es s s' h1, h2, h3, h4, h5⟩
+
 /-- **sent_after_predecessors** — the sender goroutine takes a batch only from the head of its FIFO queue and only
 when it is idle, i.e. after every earlier batch of the partition has completed (with all its attempts). -/
 theorem sent_after_predecessors (cfg : Cfg) (s s' : State) (q b : Nat) (hs : step cfg s (.qget q (some b)) = some s') :
@@ -193,6 +230,38 @@ theorem queue_put_at_tail (cfg : Cfg) (s s' : State) (q b : Nat) (acc : Bool) (h
   rename_i _ pw hq _ P hP hg
   cases hs
   exact ⟨pw, P, hq, hP, hg.1, hg.2.2, by simp⟩
+
+/-! ### the decision logic of the model is the one in the source (regenerated on every run by go/extract/writer) -/
+
+/-- every piece of decision logic the theorems below are stated over could be read from the source -/
+theorem source_logic_translated : Gen.untranslatedPieces = [] := by decide
+
+/-- **full_matches_source** — the model's `Batch.full` is `(*writeBatch).full` as it stands in writer.go -/
+theorem full_matches_source (cfg : Cfg) (B : Batch) :
+    Gen.batchFull B.msgs.length B.bytes cfg.batchSize cfg.batchBytes = B.full cfg := by
+  simp [Gen.batchFull, Batch.full]
+
+/-- **nofit_matches_source** — the model's `Batch.nofit` is the refusal condition of `(*writeBatch).add` -/
+theorem nofit_matches_source (cfg : Cfg) (B : Batch) (size : Nat) :
+    Gen.batchNoFit B.msgs.length B.bytes size cfg.batchBytes = B.nofit cfg size := by
+  simp [Gen.batchNoFit, Batch.nofit]
+
+/-- **validation_matches_source** — `allFit` is the negation of WriteMessages' `messageTooLarge` condition for every message -/
+theorem validation_matches_source (cfg : Cfg) (msgs : List MsgSpec) :
+    allFit cfg msgs = msgs.all (fun m => !Gen.tooLarge m.size cfg.batchBytes) := by
+  unfold allFit
+  congr 1
+  funext m
+  simp only [Gen.tooLarge, gt_iff_lt]
+  by_cases h : m.size ≤ cfg.batchBytes
+  · simp [h, Nat.not_lt.mpr h]
+  · simp [h, Nat.lt_of_not_le h]
+
+/-- **chooseTopic_matches_source** — the model's topic rule is `(*Writer).chooseTopic` as it stands in writer.go -/
+theorem chooseTopic_matches_source (cfg : Cfg) (m : MsgSpec) :
+    Gen.chooseTopic cfg.topic m.topic = Writer.chooseTopic cfg m := by
+  unfold Gen.chooseTopic Writer.chooseTopic
+  by_cases hw : cfg.topic = "" <;> by_cases hm : m.topic = "" <;> simp [hw, hm]
 
 /-! ### non-vacuity: BatchSize 2, BatchBytes 100; three messages of 50, 50, 60 bytes: the first batch closes when
 full (2 messages = 100 bytes exactly), the third message waits for the timer -/
